@@ -197,6 +197,17 @@ impl Property for C03 {
                     }
                     continue;
                 }
+                if hits.is_empty() && slot == "between-params" {
+                    // known class: a comment directly before an attribute on a parameter is dropped
+                    let after = src.find(text).map(|i| src[i + text.len()..].trim_start()).unwrap_or("");
+                    if after.starts_with('#') {
+                        if !judge_known {
+                            o.excluded.push("known-class:comment-before-parameter-attribute".into());
+                            continue;
+                        }
+                        return Outcome::fail("lost:comment-before-parameter-attribute", format!("comment {text:?} before an attributed parameter is lost\n{src}\n--->\n{}", r.text)).nontrivial(true);
+                    }
+                }
                 if hits.len() != 1 {
                     let class = if hits.is_empty() { "lost" } else { "duplicated" };
                     return fail(format!("{class}:{slot}:{style}"), format!("comment {text:?} ({slot}) occurs {} times in the output\n{src}\n--->\n{}", hits.len(), r.text), &o);
